@@ -1303,9 +1303,12 @@ func (tb *TB) InstAll(h *Term, points []*Term, apps map[string][]*Term, depth in
 		var pts []*Term
 		mps := tb.matchPoints(body, v, apps)
 		// candidates built from existential witnesses first
-		sort.SliceStable(mps, func(i, j int) bool {
-			return len(tb.Skolems(mps[i])) > 0 && len(tb.Skolems(mps[j])) == 0
-		})
+		// simplest candidates first: junk matches (reads of other rows of the same array) give large difference terms
+		sz := map[int]int{}
+		for _, mp := range mps {
+			sz[mp.id] = tb.size(mp, 64)
+		}
+		sort.SliceStable(mps, func(i, j int) bool { return sz[mps[i].id] < sz[mps[j].id] })
 		for _, mp := range mps {
 			if len(pts) < 10 {
 				pts = append(pts, mp)
@@ -1414,4 +1417,21 @@ func (tb *TB) patternsFor(q *Term) []*Term {
 	}
 	rec(body)
 	return out
+}
+
+// size: number of distinct nodes of t, capped.
+func (tb *TB) size(t *Term, limit int) int {
+	seen := map[int]bool{}
+	var rec func(x *Term)
+	rec = func(x *Term) {
+		if seen[x.id] || len(seen) >= limit {
+			return
+		}
+		seen[x.id] = true
+		for _, a := range x.args {
+			rec(a)
+		}
+	}
+	rec(t)
+	return len(seen)
 }
